@@ -256,6 +256,12 @@ def main(tier):
             rep.inconc("%s: %s" % (r["kind"], r.get("note")))
         elif r["status"] == "violation":
             witnesses.append((r, r["witness"]))
+    from vf.props import glue
+    try:
+        gfind, gok, grun = glue.analyse()
+        witnesses += [(None, w) for w in glue.witnesses_for(PROP, gfind)]
+    except common.Inconclusive as e:
+        rep.inconc(str(e))
     seen = set()
     for r, w in witnesses:
         f = classify_known(r, known) if r is not None else None
